@@ -114,6 +114,12 @@ class ColumnBackend(ArraySchemaBackend):
                         check_obj[column_name],
                         schema=schema,
                     )
+                except SchemaError as exc:
+                    error_handler.collect_error(
+                        validation_type(exc.reason_code),
+                        exc.reason_code,
+                        exc,
+                    )
                 except SchemaErrors as exc:
                     error_handler.collect_errors(exc.schema_errors)
 
